@@ -88,7 +88,8 @@ def prune(n: Node, strict: bool = False) -> list:
         children = n.children.copy()
         for child in children:
             pruned += prune(child, strict)
-            if strict and child not in pruned:
+            # A child pruned by the recursive call is no longer listed
+            if strict and child in n.children:
                 try:
                     node(child)
                 except MetapypeRuleError as ex:
